@@ -525,8 +525,8 @@ func c16Check(c *Ctx, k c16Case, stream []byte) [][2]string {
 }
 
 func runC16(c *Ctx) {
-	c.R.Rule = "C16: every encoder (17 families: baseline, extended 8/12, lossless pred 0..7, SV1, JPEG-LS, JPEG-LS near, " +
-		"JPEG 2000 reversible/irreversible/tiled<=64/layered/5 progressions/precincts, HTJ2K .201/.202/.203, RLE) on " +
+	c.R.Rule = "C16: every encoder (18 families: baseline, extended 8/12, lossless pred 0..7, SV1, JPEG-LS, JPEG-LS near, " +
+		"JPEG 2000 reversible/irreversible/tiled<=64/layered/5 progressions/precincts, HTJ2K .201/.202/.203 and tiled through EncodeParams, RLE) on " +
 		"noise-heavy images (60% noise/extremes), widths/heights 1..300, 256..513 and (thorough) 65535x1, 1x65535; " +
 		"non-trivial = the encoder returned a stream of >= 20 bytes that reached the walker; distinct by full argument tuple"
 	if !c.HasModel() {
